@@ -1,0 +1,77 @@
+//go:build verif
+
+// Parse layer of package geojson (C05: result shape, panic freedom and termination; C08: RequireValid; C07 structure).
+// gjson / pretty / sjson / strconv are NOT verified: calls into them are deterministic uninterpreted functions (A-GJSON).
+
+package geojson
+
+// package-level error values are created by errors.New in the package initialiser and never reassigned (C16: no store to a global)
+//@ axiom rootGlobalsInit()
+//@   ensures errDataInvalid != nil && errTypeInvalid != nil && errTypeMissing != nil && errCoordinatesInvalid != nil && errCoordinatesMissing != nil
+//@   ensures errGeometryMissing != nil && errFeaturesMissing != nil && errFeaturesInvalid != nil && errGeometriesMissing != nil && errGeometriesInvalid != nil
+//@   ensures errCircleRadiusUnitsInvalid != nil && DefaultParseOptions != nil
+
+//@ spec func okShape(o Object, e error) bool { (o != nil && e == nil) || (o == nil && e != nil) }
+
+//@ func Parse
+//@   props C05 C07
+//@   arith order
+//@   entry use rootGlobalsInit()
+//@   ensures Shape: okShape(result0, result1)
+//@   loop 0 invariant i >= 0
+//@   loop 0 decreases len(data)
+
+// ---- gjson (assumed): ForEach enumerates the members / elements in document order until the callback returns false
+//@ spec func gjLen(r gjson.Result) int
+//@ spec func gjKey(r gjson.Result, i int) gjson.Result
+//@ spec func gjVal(r gjson.Result, i int) gjson.Result
+//@ extern gjson.Result.ForEach
+//@   iter iterator(idx) dom 0 <= idx && idx < gjLen(self) ; match true ; args gjKey(self, idx), gjVal(self, idx)
+
+//@ spec func keysFrame(k *parseKeys) bool { true }
+
+//@ func parseJSON
+//@   props C05 C07 C08
+//@   arith order
+//@   entry use rootGlobalsInit()
+//@   requires opts != nil
+//@   ensures Shape: okShape(result0, result1)
+//@   call 0 iterstop false
+//@   call 0 iterinv keys != nil && !old($alloc)[keys] && (forall k *parseKeys :: old($alloc)[k] ==> (k.rCoordinates == old(k.rCoordinates) && k.rGeometries == old(k.rGeometries) && k.rGeometry == old(k.rGeometry) && k.rFeatures == old(k.rFeatures) && k.members == old(k.members)))
+
+//@ func parseBBoxAndExtras
+//@   props C05 C07
+//@   arith order
+//@   requires ex != nil && keys != nil
+//@   assigns *ex
+//@   modifies extra.members
+//@   ensures result == nil
+//@   ensures old(*ex) != nil ==> *ex == old(*ex)
+//@   ensures forall e *extra :: (old($alloc)[e] && e != old(*ex)) ==> e.members == old(e.members)
+
+//@ func toGeometryOpts
+//@   props C05 C08
+//@   arith order
+//@   entry use geometry.globalsInit()
+
+//@ func parseJSONPointCoords
+//@   props C05 C07
+//@   arith order
+//@   entry use rootGlobalsInit()
+//@   requires keys != nil && opts != nil
+//@   ensures Shape: result2 != nil ==> result1 == nil
+//@   call 0 iterinv 0 <= count && count <= 4
+//@   call 0 iterstop 0 <= count && count <= 4
+//@   loop 0 invariant 2 <= i && i <= count && count <= 4 && ex != nil && !old($alloc)[ex] && len(ex.values) == count-2
+//@   loop 0 invariant forall e *extra :: old($alloc)[e] ==> (e.dims == old(e.dims) && e.values == old(e.values))
+//@   loop 0 decreases count - i
+
+//@ func parseJSONPoint
+//@   props C05 C07 C08
+//@   arith order
+//@   only post. safe.
+//@   dead cover.ret1
+//@   entry use rootGlobalsInit()
+//@   requires keys != nil && opts != nil
+//@   ensures Shape: okShape(result0, result1)
+//@   ensures RequireValid: result1 == nil && opts.RequireValid ==> oValidS(result0)
